@@ -605,6 +605,18 @@ def split_result(line):
     return raw, per
 
 
+FINDING_CLASSES = ("c05-constructor-rejects-limits", "c05-index-record-not-integer", "c05-nonfinite-identity-pose")
+
+
+def note_finding(rep, cls, desc, replay):
+    """Deviations from the property text that the theorems list as hypotheses: counted in the evidence;
+    reported through rep.violation (hence as KNOWN-FINDING) once known_findings.txt carries an entry of that class."""
+    rep.cov.setdefault("finding_candidates", {})
+    rep.cov["finding_candidates"][cls] = rep.cov["finding_candidates"].get(cls, 0) + 1
+    if any(k.get("class") == cls for k in rep.known):
+        rep.violation(cls, desc, replay)
+
+
 def run_with_table(lines_wo_table, trig, keysets, max_rounds=4):
     """run the model on lines that need the trig table; answers `trig-miss` by extending the table"""
     impl = core.ensure_harness("debug")
@@ -668,6 +680,10 @@ def unit_level(rep, rng, tier, trig, replay=None):
     for i, c in enumerate(cases):
         rep.distinct("u" + gen.fnv_hex(lines[i].encode()))
         rp = dict(kind="postprocess", pose=c[0], flags=c[1], point=c[2])
+        if c[0] in ("N", ",".join(h64(v) for v in IDENTITY)) and c[1][0] == "0" and c[2].startswith("V,") and o_impl[i] == exps[i] \
+                and o_impl[i].split("/")[0] != c[2].split("/")[0] and not all(finite(v) for v in parse_point(c[2])[0][1:]):
+            note_finding(rep, "c05-nonfinite-identity-pose", "the identity pose changes a valid non-finite coordinate: %s becomes %s" %
+                         (c[2].split("/")[0], o_impl[i].split("/")[0]), rp)
         if o_impl[i] != exps[i]:
             n_dir += 1
             rep.violation("c05-postprocess", "post-processing of %s (s2c,c2s,i2c=%s, pose %s) gives %s, the documented conversions give %s" %
@@ -827,6 +843,9 @@ def file_level(rep, rng, tier, trig, replay=None):
                 continue
             if isinstance(e, tuple):
                 causes["limits rejected by the constructor"] = causes.get("limits rejected by the constructor", 0) + 1
+                if s["new"] == "e" + e[1] and raw["end"] == "none":
+                    note_finding(rep, "c05-constructor-rejects-limits", "limits %s / %s: pointcloud_simple fails with %s, pointcloud_raw reads %d points" %
+                                 (m["d"]["il"], m["d"]["cl"], s["new"], raw["n"]), rpk)
                 if s["new"] != "e" + e[1]:
                     bad = ("c05-fails-only-if", "limits %s / %s are not a usable range but the simple iterator (options %d) answers %s" %
                            (m["d"]["il"], m["d"]["cl"], k, s["new"] or "ok"))
@@ -849,6 +868,9 @@ def file_level(rep, rng, tier, trig, replay=None):
                 kind = views[firsterr][1]
                 cause = "invalid-state value outside its set" if kind == "Invalid" else "invalid-state/row/column record that is not an integer"
                 causes[cause] = causes.get(cause, 0) + 1
+                if kind == "Internal" and s["end"] == "eInternal":
+                    note_finding(rep, "c05-index-record-not-integer", "an invalid-state/row/column record that is not an integer: the simple iterator fails with Internal at raw point %d, the raw iterator reads %d points" %
+                                 (firsterr, raw["n"]), rpk)
                 if s["end"] != "e" + kind or s["n"] > firsterr:
                     bad = ("c05-fails-only-if", "raw point %d has no documented view (%s) but the simple iterator (options %d) returned %d points and ended with %s" %
                            (firsterr, kind, k, s["n"], s["end"]))
@@ -859,22 +881,10 @@ def file_level(rep, rng, tier, trig, replay=None):
                                (j, k, s["pts"][j][:200], raw["pts"][j][:120], views[j][:200]))
                         rpk["point_index"] = j
             else:
-                # no failing point among those the raw iterator returned: a difference is legitimate only
-                # when a written point beyond the descriptor's count was decoded ahead and is out of set
-                ahead = written[raw["n"]:]
-                excuse = False
-                if s["end"].startswith("e") and raw["end"] == "none" and ahead:
-                    try:
-                        rgs = ranges_of(m["d"])
-                        for p in ahead:
-                            view(m["d"], rgs, k, p.split(","), Trig())
-                    except ViewErr as ex:
-                        excuse = s["end"] == "e" + ex.kind
-                if excuse:
-                    causes["point beyond the record count decoded ahead"] = causes.get("point beyond the record count decoded ahead", 0) + 1
-                else:
-                    bad = ("c05-count-order", "raw iterator: %d points, end %s; simple iterator (options %d): %d points, end %s" %
-                           (raw["n"], raw["end"], k, s["n"], s["end"]))
+                # no failing point among those the raw iterator returned: nothing excuses a difference
+                # (values behind the last point are not converted since 1d9b775)
+                bad = ("c05-count-order", "raw iterator: %d points, end %s; simple iterator (options %d): %d points, end %s" %
+                       (raw["n"], raw["end"], k, s["n"], s["end"]))
             if bad:
                 rp = rpk
         if bad:
